@@ -69,3 +69,13 @@ add("C07",
         twin._port = None
         return twin"""), None),
     )
+
+add("C07",
+    Mutant("L7 Wire._clone hands the source's pin list to the copy (seeded C07-w3A)",
+           (W, "        c._pins = copy(self._pins)", "        c._pins = self._pins"), "L7|spydrnet/ir/wire.py:Wire._clone|_pins"),
+    Mutant("L5 Instance._clone_rip walks the keys of the pin map (the definition's inner pins) (seeded C07-w3C)",
+           (I, "        for op in self._pins.values():\n            op._wire = None", "        for op in self._pins:\n            op._wire = None"),
+           "L5|spydrnet/ir/instance.py:Instance._clone_rip|foreign _wire set"),
+    Mutant("L7 twin: list(...) instead of copy(...)",
+           (W, "        c._pins = copy(self._pins)", "        c._pins = list(self._pins)"), None),
+)
